@@ -2,7 +2,13 @@ package vm
 
 // C26 — page tables behave as a per-process map with deterministic lookups.
 
-import "github.com/sarchlab/akita/v5/internal/verifrt"
+import (
+	"io"
+
+	"github.com/sarchlab/akita/v5/internal/verifrt"
+)
+
+var c26EOF = io.EOF
 
 type c26Entry struct {
 	pid  PID
@@ -133,5 +139,65 @@ func VerifC26_Shared() {
 	verifrt.Assert(found && found2, "shared-page-found")
 	verifrt.Assert(got.PAddr == p && got2.PAddr == p, "shared-page-address")
 	verifrt.Assert(got == got2, "reverse-lookup-of-a-shared-page-is-deterministic")
+	verifrt.Cover("end")
+}
+
+type c26Buf struct {
+	data []byte
+	pos  int
+}
+
+func (b *c26Buf) Write(p []byte) (int, error) { b.data = append(b.data, p...); return len(p), nil }
+func (b *c26Buf) Read(p []byte) (int, error) {
+	if b.pos >= len(b.data) {
+		return 0, c26EOF
+	}
+	n := copy(p, b.data[b.pos:])
+	b.pos += n
+	return n, nil
+}
+
+// VerifC26_Checkpoint: save -> load into a fresh table preserves every lookup
+// result, including reverse lookups of shared physical pages, whatever order
+// the processes were first touched in; a different page size is refused.
+func VerifC26_Checkpoint() {
+	m := c26New()
+	k := verifrt.Bound("inserts", 3, 4)
+	shared := verifrt.Uint64("shared-paddr")
+	for i := 0; i < k; i++ {
+		pid := PID(1 + verifrt.Choice("pid", 3))
+		pg := c26Page(pid)
+		if verifrt.Choice("share", 2) == 1 {
+			pg.PAddr = shared
+		}
+		if m.lookup(pid, pg.VAddr) >= 0 {
+			continue
+		}
+		m.pt.Insert(pg)
+		m.ref = append(m.ref, c26Entry{pid, pg})
+	}
+	var w c26Buf
+	verifrt.Assert(m.pt.SaveCheckpoint(&w) == nil, "save-succeeds")
+	fresh := NewPageTable(12).(*pageTableImpl)
+	verifrt.Assert(fresh.LoadCheckpoint(&c26Buf{data: w.data}) == nil, "load-succeeds")
+	for _, e := range m.ref {
+		a, fa := m.pt.Find(e.pid, e.page.VAddr)
+		b, fb := fresh.Find(e.pid, e.page.VAddr)
+		verifrt.Assert(fa && fb && a == b, "find-survives-checkpoint")
+		ra, oka := m.pt.ReverseLookup(e.page.PAddr)
+		rb, okb := fresh.ReverseLookup(e.page.PAddr)
+		verifrt.Assert(oka && okb && ra == rb, "reverse-lookup-survives-checkpoint")
+	}
+	// per-process insertion order survives: removing and reverse-looking-up again agrees
+	if len(m.ref) > 0 {
+		e := m.ref[0]
+		m.pt.Remove(e.pid, e.page.VAddr)
+		fresh.Remove(e.pid, e.page.VAddr)
+		ra, oka := m.pt.ReverseLookup(e.page.PAddr)
+		rb, okb := fresh.ReverseLookup(e.page.PAddr)
+		verifrt.Assert(oka == okb && ra == rb, "reverse-lookup-agrees-after-a-removal")
+	}
+	other := NewPageTable(16).(*pageTableImpl)
+	verifrt.Assert(other.LoadCheckpoint(&c26Buf{data: w.data}) != nil, "page-size-mismatch-refused")
 	verifrt.Cover("end")
 }
